@@ -16,8 +16,17 @@ def segment(rng, d):
     s = "".join(rng.choice(SAFE) for _ in range(k))
     if s in (".", ".."):
         s = "x" + s
-    if rng.random() < 0.2 and d != "/":
-        s = s + d + rng.choice(SAFE)
+    if rng.random() < 0.3 and d != "/":
+        # the delimiter itself inside the identifier: leading, trailing, in the middle, doubled
+        m = rng.random()
+        if m < 0.3:
+            s = d + s
+        elif m < 0.5:
+            s = s + d
+        elif m < 0.8:
+            s = s + d + rng.choice(SAFE)
+        else:
+            s = d + d + s
     return s
 
 
@@ -28,7 +37,7 @@ class C17(Plugin):
     counts = {"quick": 250, "thorough": 6000}
     rule = ("case = (strict converter with URL-safe prefixes and synonyms, delimiter ':' or '/', 6 requests); request = /<prefix><delimiter><identifier> "
             "with a known canonical prefix, a known synonym or an unknown prefix and an identifier of 1..4 non-empty URL-path-safe segments (never "
-            "'.' / '..') joined by '/', 20 % of the segments containing the delimiter itself. Both the in-process Flask client and the Starlette "
+            "'.' / '..') joined by '/', 30 % of the segments containing the delimiter itself (leading, trailing, inside, doubled). Both the in-process Flask client and the Starlette "
             "TestClient are driven; status and Location are compared. Non-trivial: an identifier contains '/' or the delimiter.")
     assumptions = ["Werkzeug / Starlette routing, percent-decoding and Location quoting are runtime: exercised, not modelled",
                    "identifiers use unreserved URL characters only, so no quoting difference can arise"]
